@@ -8,11 +8,11 @@ t0=$(date +%s)
 ( cd coq && rm -f Makefile Makefile.conf .Makefile.d && find . -name '*.vo' -o -name '*.vok' -o -name '*.vos' -o -name '*.glob' -o -name '.*.aux' | xargs rm -f )
 python3 tools/check.py setup || exit 1
 echo "clean build + setup: $(( $(date +%s) - t0 )) s"
+t=$(date +%s)
+( cd coq && timeout 7200 coqchk -silent -o -Q Model Gopki.Model -Q Spec Gopki.Spec -Q Proofs Gopki.Proofs -Q Properties Gopki.Properties $(ls Properties/C*.v | sed 's#Properties/\(C[0-9]*\)\.v#Gopki.Properties.\1#') 2>&1 | tail -25 )
+echo "coqchk took $(( $(date +%s) - t )) s"
 for p in $PROPS; do
   t=$(date +%s)
   python3 tools/check.py $p thorough | grep -E "^(OK|VIOLATION|KNOWN)"
   echo "   $p thorough took $(( $(date +%s) - t )) s"
 done
-t=$(date +%s)
-( cd coq && timeout 7200 coqchk -silent -o -Q Model Gopki.Model -Q Spec Gopki.Spec -Q Proofs Gopki.Proofs -Q Properties Gopki.Properties $(ls Properties/C*.v | sed 's#Properties/\(C[0-9]*\)\.v#Gopki.Properties.\1#') 2>&1 | tail -25 )
-echo "coqchk took $(( $(date +%s) - t )) s"
